@@ -73,6 +73,27 @@ Proof.
   intros ps ix Hk H. rewrite (product_runs_spec ps Hk). apply spec_product_index_unique. exact H.
 Qed.
 
+(* the product space is empty exactly when some dimension is empty (no hypothesis on the keys) *)
+Lemma list_prod_zero_iff : forall dims, list_prod dims = 0 <-> In 0 dims.
+Proof.
+  induction dims as [|d ds IH]; simpl.
+  - split; [discriminate | intros []].
+  - rewrite Nat.eq_mul_0, IH. split; intros [H|H]; auto.
+Qed.
+
+Lemma product_runs_empty_iff : forall ps,
+  product_runs ps = [] <-> exists p, In p (enabled ps) /\ plen p = 0.
+Proof.
+  intros ps. rewrite product_runs_closed.
+  split.
+  - intros H. apply (f_equal (@List.length run)) in H. rewrite map_length, seq_length in H. simpl in H.
+    apply list_prod_zero_iff in H. apply in_map_iff in H. destruct H as [p [Hp Hin]]. eauto.
+  - intros [p [Hin Hp]].
+    assert (E : list_prod (map plen (enabled ps)) = 0).
+    { apply list_prod_zero_iff. rewrite <- Hp. apply in_map. exact Hin. }
+    rewrite E. reflexivity.
+Qed.
+
 (* non-vacuity: a 2 x 3 space *)
 Example rank_unrank_2x3 :
   map (fun n => rank [2;3] (unrank [2;3] n)) (seq 0 6) = seq 0 6 /\ unrank [2;3] 4 = [1;1].
@@ -82,3 +103,4 @@ Print Assumptions rank_unrank.
 Print Assumptions unrank_rank.
 Print Assumptions unrank_injective.
 Print Assumptions spec_product_index_unique.
+Print Assumptions product_runs_empty_iff.
